@@ -332,7 +332,7 @@ class Parser(object):
         self.tags = []
 
     def _build_rule_statement(self, keyword, line):
-        if not self.feature:
+        if not self.feature and self.variant != "rule":
             msg = u"Rule may not occur before Feature"
             raise ParserError(msg, self.line, self.filename, line)
         name = line[len(keyword) + 1:].strip()
@@ -341,7 +341,8 @@ class Parser(object):
         self.rule = rule
         self.scenario_container = rule
         self.statement = rule
-        self.feature.add_rule(self.statement)
+        if self.feature:
+            self.feature.add_rule(self.statement)
         # -- RESET STATE:
         self.tags = []
 
@@ -354,6 +355,9 @@ class Parser(object):
                 # -- HINT: Rule may have default background w/o steps.
                 msg = u"Second Background (can have only one)"
                 raise ParserError(msg, self.line, self.filename, line)
+        if not self.scenario_container:
+            msg = u"Background may not occur before Feature or Rule"
+            raise ParserError(msg, self.line, self.filename, line)
         name = line[len(keyword) + 1:].strip()
         background = model.Background(self.filename, self.line, keyword, name)
         self.scenario_container.add_background(background)
@@ -624,6 +628,10 @@ class Parser(object):
             self.state = State.BACKGROUND
             return True
 
+        if self.rule is None:
+            # -- CASE: parse_rule() and text before Rule line.
+            return False
+
         self.rule.description.append(line)
         return True
 
@@ -818,7 +826,7 @@ class Parser(object):
         :return: List of parsed rule (as :class:`~behave.model:Rule` object).
         """
         self._parse_loop(text, initial_state=State.RULE, filename=filename)
-        rule = self.statement
+        rule = self.rule
         return rule
 
 
